@@ -183,3 +183,23 @@ class Report:
         print(f"[{self.pid}/{self.tier}] obligations={obligations} discharged={discharged} "
               f"known={len(listed)} new={len(new)} errors={len(self.errors)} wall={wall:.2f}s exit={code}")
         return code
+
+
+
+class Filtered:
+    """view of a Report that keeps only the obligations whose construct satisfies `keep` - used when a property borrows a rule function of
+    another property but only part of its obligations are necessary conditions of the borrowing property"""
+
+    def __init__(self, rep, keep):
+        self._rep, self._keep = rep, keep
+
+    def ok(self, rid, construct, n=1):
+        if self._keep(str(construct)):
+            self._rep.ok(rid, construct, n)
+
+    def violation(self, rid, construct, msg, where=None):
+        if self._keep(str(construct)):
+            self._rep.violation(rid, construct, msg, where)
+
+    def __getattr__(self, name):
+        return getattr(self._rep, name)
